@@ -1,13 +1,17 @@
-import Proofs.Num.Elen
-import PocketModel.Indexer
+import Proofs.Indexer.Page
 /-!
 # C42 — Transaction search returns exactly the matching indexed transactions
 
 Model: `PocketModel/Num/Elen.lean` (lexnum ELEN encoder), `PocketModel/Indexer.lean`
-(types/indexer.go).
+(types/indexer.go).  `build txs` is the database after the results `txs` went through
+`Index`/`AddBatch` in any grouping (`database_independent_of_batching`).  `Good txs` collects the
+preconditions: distinct transaction hashes, distinct (height, position), hashes that are non-empty
+and do not begin with the ASCII bytes `tx.`, heights and positions below `MaxInt64`.
 -/
 namespace C42
 open Elen Indexer
+
+/-! ## Number encoding and keys -/
 
 /-- ELEN is strictly order preserving on non-negative numbers (bytewise order of the encodings). -/
 theorem elen_strict_mono (i j : Nat) (h : i < j) : encodeInt i < encodeInt j := encodeInt_lt h
@@ -15,6 +19,233 @@ theorem elen_strict_mono (i j : Nat) (h : i < j) : encodeInt i < encodeInt j := 
 /-- No encoding is a prefix of another one. -/
 theorem elen_prefix_free (i j : Nat) (h : i ≠ j) : ¬ encodeInt i <+: encodeInt j :=
   encodeInt_prefix_free h
+
+/-- Within one address, keys are ordered like (height, position). -/
+theorem key_order (ns a : Bytes) (h i h' i' : Nat) :
+    keyForAddr ns a h i < keyForAddr ns a h' i' ↔ (h < h' ∨ (h = h' ∧ i < i')) :=
+  keyForAddr_lt_iff ns a h i h' i'
+
+/-- Within one height, keys are ordered like the position. -/
+theorem key_order_height (h i i' : Nat) : keyForHeight h i < keyForHeight h i' ↔ i < i' :=
+  keyForHeight_lt_iff h i i'
+
+/-- `Index` one by one and `AddBatch` in any grouping build the same database. -/
+theorem database_independent_of_batching (s : Store) (a b : List TxRes) (t : TxRes) :
+    addBatch s (a ++ b) = addBatch (addBatch s a) b ∧ index s t = addBatch s [t] :=
+  ⟨addBatch_append s a b, rfl⟩
+
+/-! ## Exact ranges -/
+
+/-- The scan range of an address holds exactly the index entries of that address's indexed
+results — no neighbouring address (not even one whose hex string extends it), no other name
+space, no height entry and no result record leaks in. -/
+theorem range_exact (txs : List TxRes) (hg : Good txs) (ns : Bytes) (hn : IsAddrNs ns) (a : Bytes) (e : Entry) :
+    e ∈ iterator (build txs) (prefixKeyForAddr ns a) (endKey (prefixKeyForAddr ns a)) ↔
+      ∃ t ∈ indexed txs, addrField ns t = some a ∧ e = (keyForAddr ns a t.height t.index, Val.idx t.hash) :=
+  addr_range_exact hg hn a e
+
+/-- The scan range of a height holds exactly that height's entries (height 1 does not see 10, 11, …). -/
+theorem range_exact_height (txs : List TxRes) (hg : Good txs) (h : Nat) (e : Entry) :
+    e ∈ iterator (build txs) (prefixKeyForHeight h) (endKey (prefixKeyForHeight h)) ↔
+      ∃ t ∈ indexed txs, t.height = h ∧ e = (keyForHeight h t.index, Val.idx t.hash) :=
+  height_range_exact hg h e
+
+/-! ## Lookup by hash -/
+
+/-- Lookup by hash returns the stored result of every indexed transaction, and `nil` for a hash
+that was never indexed (ante-level failures included). -/
+theorem get_by_hash (txs : List TxRes) (hg : Good txs) :
+    (∀ t ∈ indexed txs, get (build txs) t.hash = .ok (some t)) ∧
+    (∀ hash, hash ≠ [] → ¬ txPrefix <+: hash → (∀ t ∈ indexed txs, t.hash ≠ hash) →
+      get (build txs) hash = .ok none) :=
+  ⟨fun _ ht => get_indexed hg ht, fun _ h1 h2 h3 => get_absent hg h1 h2 h3⟩
+
+/-! ## Search: exact set, order, pages, total -/
+
+/-- Search by sender/recipient, for either direction mapping `m`: there is one list `full` — exactly
+the indexed results of that address, ordered by (height, position) along the iterator direction —
+such that every call returns the page `take size (drop skip full)` and `total = |full|` = the number
+of matching indexed results. -/
+theorem search_address_exact (txs : List TxRes) (hg : Good txs) (ns : Bytes) (hn : IsAddrNs ns) (a : Bytes)
+    (m : SortArg → Option Dir) (sort : SortArg) (dir : Dir) (hm : m sort = some dir) :
+    ∃ full : List TxRes,
+      (∀ skip size : Int, searchAddr m (build txs) ns a sort skip size =
+        .ok (((full.drop skip.toNat).take (clampSize size).toNat).map some, full.length)) ∧
+      (∀ t, t ∈ full ↔ t ∈ indexed txs ∧ addrField ns t = some a) ∧
+      full.Pairwise (DirOrder dir) ∧
+      full.length = ((indexed txs).filter fun t => addrField ns t == some a).length := by
+  obtain ⟨full, h1, h2, h3⟩ := searchAddr_spec hg hn a m sort dir hm
+  refine ⟨full, h1, h2, h3, ?_⟩
+  exact full_length_eq hg (fun t => addrField ns t == some a) dir full (by simpa using h2) h3
+
+/-- Search by height: exactly that height's indexed results ordered by position. -/
+theorem search_height_exact (txs : List TxRes) (hg : Good txs) (h : Nat)
+    (m : SortArg → Option Dir) (sort : SortArg) (dir : Dir) (hm : m sort = some dir) :
+    ∃ full : List TxRes,
+      (∀ skip size : Int, searchHeight m (build txs) h sort skip size =
+        .ok (((full.drop skip.toNat).take (clampSize size).toNat).map some, full.length)) ∧
+      (∀ t, t ∈ full ↔ t ∈ indexed txs ∧ t.height = h) ∧
+      full.Pairwise (DirOrder dir) ∧
+      full.length = ((indexed txs).filter fun t => t.height == h).length := by
+  obtain ⟨full, h1, h2, h3⟩ := searchHeight_spec hg h m sort dir hm
+  refine ⟨full, h1, h2, h3, ?_⟩
+  exact full_length_eq hg (fun t => t.height == h) dir full (by simpa using h2) h3
+
+/-- An unsupported sort string is an error, never a partial answer. -/
+theorem search_unsupported_sort (m : SortArg → Option Dir) (s : Store) (pre : Bytes) (sort : SortArg)
+    (hm : m sort = none) (skip size : Int) : getByPrefix m s pre sort skip size = .err := by
+  simp [getByPrefix, prefixIterator, hm]
+
+/-- The items of a search answer. -/
+def items : Res (List (Option TxRes) × Nat) → List (Option TxRes)
+  | .ok (l, _) => l
+  | .err => []
+
+/-- Pagination neither skips nor repeats: the pages of any size `n` (`1 ≤ n ≤ maxPerPage`)
+concatenate to the full ordered result, for every address search. -/
+theorem pagination_partition (txs : List TxRes) (hg : Good txs) (ns : Bytes) (hn : IsAddrNs ns) (a : Bytes)
+    (m : SortArg → Option Dir) (sort : SortArg) (dir : Dir) (hm : m sort = some dir)
+    (n : Nat) (hn1 : 0 < n) (hn2 : n ≤ 10000) :
+    ∃ full : List TxRes, (∀ t, t ∈ full ↔ t ∈ indexed txs ∧ addrField ns t = some a) ∧
+      ∀ k, full.length ≤ k * n →
+        (List.range k).flatMap (fun j => items (searchAddr m (build txs) ns a sort ((j * n : Nat) : Int) (n : Int)))
+          = full.map some := by
+  obtain ⟨full, h1, h2, _⟩ := searchAddr_spec hg hn a m sort dir hm
+  refine ⟨full, h2, ?_⟩
+  intro k hk
+  have hc : (clampSize (n : Int)).toNat = n := by
+    unfold clampSize maxPerPage
+    have : ¬ ((n : Int) > 10000) := by omega
+    rw [if_neg this]; simp
+  have : ∀ j : Nat, items (searchAddr m (build txs) ns a sort ((j * n : Nat) : Int) (n : Int)) =
+      ((full.map some).drop (j * n)).take n := by
+    intro j
+    have e : (((j * n : Nat) : Int)).toNat = j * n := Int.toNat_natCast _
+    rw [h1, hc, e]
+    simp [items, List.map_drop, List.map_take]
+  simp only [this]
+  exact pages_concat n hn1 k (full.map some) (by simpa using hk)
+
+/-! ## Direction -/
+
+/-- **As coded** (`asc → ReverseIterator`): a search with `sort = asc` lists the results in
+*descending* (height, position) order and `desc` in ascending order. -/
+theorem order_as_coded (txs : List TxRes) (hg : Good txs) (ns : Bytes) (hn : IsAddrNs ns) (a : Bytes) :
+    (∃ full : List TxRes, (∀ skip size : Int, searchAddr sortMapAsIs (build txs) ns a .asc skip size =
+        .ok (((full.drop skip.toNat).take (clampSize size).toNat).map some, full.length)) ∧
+      (∀ t, t ∈ full ↔ t ∈ indexed txs ∧ addrField ns t = some a) ∧
+      full.Pairwise fun x y => PosLt y.height y.index x.height x.index) ∧
+    (∃ full : List TxRes, (∀ skip size : Int, searchAddr sortMapAsIs (build txs) ns a .desc skip size =
+        .ok (((full.drop skip.toNat).take (clampSize size).toNat).map some, full.length)) ∧
+      (∀ t, t ∈ full ↔ t ∈ indexed txs ∧ addrField ns t = some a) ∧
+      full.Pairwise fun x y => PosLt x.height x.index y.height y.index) :=
+  ⟨searchAddr_spec hg hn a sortMapAsIs .asc .reverse rfl, searchAddr_spec hg hn a sortMapAsIs .desc .forward rfl⟩
+
+/-- **Defect**: whenever an address has two indexed results, the `asc` search of the code as it is
+returns the later one first. -/
+theorem asc_returns_descending (txs : List TxRes) (hg : Good txs) (ns : Bytes) (hn : IsAddrNs ns) (a : Bytes)
+    (t1 t2 : TxRes) (h1 : t1 ∈ indexed txs) (h2 : t2 ∈ indexed txs)
+    (f1 : addrField ns t1 = some a) (f2 : addrField ns t2 = some a)
+    (hlt : PosLt t1.height t1.index t2.height t2.index) :
+    ∃ l1 l2 l3 : List TxRes, ∃ total : Nat,
+      searchAddr sortMapAsIs (build txs) ns a .asc 0 10000 =
+        .ok (((l1 ++ t2 :: l2 ++ t1 :: l3).take 10000).map some, total) := by
+  obtain ⟨full, hs, hm, hp⟩ := searchAddr_spec hg hn a sortMapAsIs .asc .reverse rfl
+  have hne : t1 ≠ t2 := by
+    intro e; subst e; exact posLt_irrefl _ _ hlt
+  obtain ⟨l1, l2, l3, hfull⟩ := before_of_pairwise hp ((hm t1).mpr ⟨h1, f1⟩) ((hm t2).mpr ⟨h2, f2⟩) hne
+    (fun h => posLt_asymm hlt h)
+  refine ⟨l1, l2, l3, full.length, ?_⟩
+  rw [hs 0 10000, hfull]
+  simp [clampSize, maxPerPage]
+
+/-- The statement "results come in the requested direction" for a direction mapping `m`. -/
+def RequestedDirection (m : SortArg → Option Dir) : Prop :=
+  ∀ (txs : List TxRes), Good txs → ∀ (ns a : Bytes), IsAddrNs ns →
+    ∀ (t1 t2 : TxRes), t1 ∈ indexed txs → t2 ∈ indexed txs → addrField ns t1 = some a → addrField ns t2 = some a →
+      PosLt t1.height t1.index t2.height t2.index →
+      ∃ l1 l2 l3 : List TxRes, ∃ total : Nat,
+        searchAddr m (build txs) ns a .asc 0 10000 = .ok (((l1 ++ t1 :: l2 ++ t2 :: l3).take 10000).map some, total)
+
+/-- After `fixes/C42-sort-direction.patch` (`asc → Iterator`) the requested direction holds. -/
+theorem order_matches_requested_direction_fixed : RequestedDirection sortMapFixed := by
+  intro txs hg ns a hn t1 t2 h1 h2 f1 f2 hlt
+  obtain ⟨full, hs, hm, hp⟩ := searchAddr_spec hg hn a sortMapFixed .asc .forward rfl
+  have hne : t2 ≠ t1 := by
+    intro e; subst e; exact posLt_irrefl _ _ hlt
+  obtain ⟨l1, l2, l3, hfull⟩ := before_of_pairwise hp ((hm t2).mpr ⟨h2, f2⟩) ((hm t1).mpr ⟨h1, f1⟩) hne
+    (fun h => posLt_asymm hlt h)
+  refine ⟨l1, l2, l3, full.length, ?_⟩
+  rw [hs 0 10000, hfull]
+  simp [clampSize, maxPerPage]
+
+/-! ## Non-vacuity and the concrete counterexample -/
+
+theorem map_some_inj {α : Type} : ∀ (l1 l2 : List α), l1.map some = l2.map some → l1 = l2 := by
+  intro l1
+  induction l1 with
+  | nil => intro l2 h; cases l2 with
+    | nil => rfl
+    | cons _ _ => simp at h
+  | cons x xs ih => intro l2 h; cases l2 with
+    | nil => simp at h
+    | cons y ys =>
+      simp only [List.map_cons, List.cons.injEq, Option.some.injEq] at h
+      rw [h.1, ih ys h.2]
+
+/-- Two transfers of one signer `ab` at heights 1 and 2. -/
+def demo : List TxRes :=
+  [⟨1, 0, [1, 1], some [171], none, false⟩, ⟨2, 0, [2, 2], some [171], some [205], false⟩,
+   ⟨2, 1, [3, 3], some [171], none, true⟩]
+
+theorem demo_good : Good demo := by
+  constructor
+  · simp [demo, indexed]
+  · intro t ht
+    simp [demo, indexed] at ht
+    rcases ht with rfl | rfl <;> simp [txPrefix]
+  · intro t ht
+    simp [demo, indexed] at ht
+    rcases ht with rfl | rfl <;> simp [maxInt64]
+
+/-- The property's direction clause is false of the code as it is. -/
+theorem order_matches_requested_direction_fails : ¬ RequestedDirection sortMapAsIs := by
+  intro h
+  have hn : IsAddrNs txSignerKey := Or.inl rfl
+  have m1 : (⟨1, 0, [1, 1], some [171], none, false⟩ : TxRes) ∈ indexed demo := by simp [demo, indexed]
+  have m2 : (⟨2, 0, [2, 2], some [171], some [205], false⟩ : TxRes) ∈ indexed demo := by simp [demo, indexed]
+  have f1 : addrField txSignerKey (⟨1, 0, [1, 1], some [171], none, false⟩ : TxRes) = some [171] := by simp [addrField]
+  have f2 : addrField txSignerKey (⟨2, 0, [2, 2], some [171], some [205], false⟩ : TxRes) = some [171] := by simp [addrField]
+  have hlt : PosLt 1 0 2 0 := Or.inl (by decide)
+  obtain ⟨a1, a2, a3, tot, ha⟩ := h demo demo_good txSignerKey [171] hn _ _ m1 m2 f1 f2 hlt
+  obtain ⟨b1, b2, b3, tot', hb⟩ := asc_returns_descending demo demo_good txSignerKey hn [171] _ _ m1 m2 f1 f2 hlt
+  -- both shapes describe the same answer `full`, which is ordered: contradiction
+  obtain ⟨full, hs, hm, hp, hlen⟩ := search_address_exact demo demo_good txSignerKey hn [171] sortMapAsIs .asc .reverse rfl
+  have hl2 : full.length ≤ 2 := by
+    rw [hlen]
+    exact Nat.le_trans (List.length_filter_le _ _) (by simp [demo, indexed])
+  rw [hs 0 10000] at ha
+  have hc : (clampSize 10000).toNat = 10000 := by simp [clampSize, maxPerPage]
+  simp only [hc, Int.toNat_zero, List.drop_zero] at ha
+  have htake : full.take 10000 = full := List.take_of_length_le (by omega)
+  rw [htake] at ha
+  injection ha with ha
+  injection ha with ha _
+  have hinj : full = (a1 ++ ⟨1, 0, [1, 1], some [171], none, false⟩ :: a2 ++ ⟨2, 0, [2, 2], some [171], some [205], false⟩ :: a3).take 10000 :=
+    map_some_inj _ _ ha
+  have hlen2 : (a1 ++ (⟨1, 0, [1, 1], some [171], none, false⟩ : TxRes) :: a2 ++ ⟨2, 0, [2, 2], some [171], some [205], false⟩ :: a3).take 10000
+      = a1 ++ ⟨1, 0, [1, 1], some [171], none, false⟩ :: a2 ++ ⟨2, 0, [2, 2], some [171], some [205], false⟩ :: a3 := by
+    apply List.take_of_length_le
+    have : (List.take 10000 (a1 ++ (⟨1, 0, [1, 1], some [171], none, false⟩ : TxRes) :: a2 ++ ⟨2, 0, [2, 2], some [171], some [205], false⟩ :: a3)).length ≤ 2 := by
+      rw [← hinj]; exact hl2
+    rw [List.length_take] at this
+    omega
+  rw [hlen2] at hinj
+  rw [hinj] at hp
+  -- in `full`, t1 precedes t2, but the order is descending
+  have := (List.pairwise_append.mp hp).2.2 ⟨1, 0, [1, 1], some [171], none, false⟩ (by simp)
+    ⟨2, 0, [2, 2], some [171], some [205], false⟩ (by simp)
+  simp [DirOrder, PosLt] at this
 
 example : encodeInt 9 < encodeInt 10 := elen_strict_mono 9 10 (by decide)
 
